@@ -202,7 +202,7 @@ func (p *impPkg) h2fHeader() string {
 }
 
 // the argument `&x` / `x` of a big.Int method: a local *big.Int / big.Int variable or the package modulus, read as its value
-func (f *impFn) bigArg(a ast.Expr, c *ictx) string {
+func (f *impFn) h2fBigArg(a ast.Expr, c *ictx) string {
 	if u, ok := a.(*ast.UnaryExpr); ok && u.Op == token.AND {
 		if id, ok := u.X.(*ast.Ident); ok {
 			if id.Name == "_modulus" && f.lookup(id.Name) == nil && f.p.modulus != "" {
